@@ -482,6 +482,10 @@ func main() {
 	}
 	// compile in parallel batches
 	nb := 12
+	if len(progs) > 9000 {
+		nb = (len(progs) + 749) / 750 // keep every compiled package small: the compiler's memory grows with the package
+	}
+	sem := make(chan struct{}, 8)
 	type res struct {
 		r   []rt.Result
 		err string
@@ -493,6 +497,8 @@ func main() {
 		wg.Add(1)
 		go func() {
 			defer wg.Done()
+			sem <- struct{}{}
+			defer func() { <-sem }()
 			bt := &tgen.Batch{Dir: filepath.Join(tgen.Scratch(), fmt.Sprintf("batch%d", b)), Files: map[string]string{"lib.templ": library}}
 			defer bt.Remove()
 			var sb strings.Builder
